@@ -284,6 +284,7 @@ class ModuleNormalizer:
         self.base = set(rec['funcs']) if rec else None
         self.keep_ifexp = rec['ifexp'] if rec else {}
         self.keep_guards = rec['guards'] if rec else {}
+        self.keep_aliases = rec.get('aliases', {}) if rec else {}
         self.helpers = {}        # ('', name) or (classname, name) -> Helper
         self.class_bases = {}
         self.tmp = 0
@@ -953,6 +954,209 @@ class ModuleNormalizer:
                         stmts[i] = ast.copy_location(ast.Pass(), s)
             i += 1
 
+    # ---------------------------------------------------------------- N6 / N5
+    def fold_accumulators(self):
+        """acc = [] ; for T in IT: [if C:] acc.append(E) ; <one use of acc>   ->   <use of [E for T in IT if C]>
+        (the accumulator is a new local with no other use; evaluation order is that of the comprehension)"""
+        if self.base is None:
+            return
+        for fn in [n for n in ast.walk(self.tree) if isinstance(n, FUNCS)]:
+            self._fold_acc_block(fn, fn.body)
+
+    def _fold_acc_block(self, fn, stmts):
+        i = 0
+        while i < len(stmts):
+            s = stmts[i]
+            for fld in ('body', 'orelse', 'finalbody'):
+                sub = getattr(s, fld, None)
+                if isinstance(sub, list) and sub and isinstance(sub[0], ast.stmt) and not isinstance(s, FUNCS + (ast.ClassDef,)):
+                    self._fold_acc_block(fn, sub)
+            for h in getattr(s, 'handlers', []) or []:
+                self._fold_acc_block(fn, h.body)
+            if isinstance(s, ast.Assign) and len(s.targets) == 1 and isinstance(s.targets[0], ast.Name) and isinstance(s.value, ast.List) \
+                    and not s.value.elts and i + 2 < len(stmts) and isinstance(stmts[i + 1], ast.For) and not stmts[i + 1].orelse:
+                acc = s.targets[0].id
+                lp, use = stmts[i + 1], stmts[i + 2]
+                body, ifs = lp.body, []
+                while len(body) == 1 and isinstance(body[0], ast.If) and not body[0].orelse:
+                    ifs.append(body[0].test)
+                    body = body[0].body
+                app = body[0] if len(body) == 1 else None
+                ok = isinstance(app, ast.Expr) and isinstance(app.value, ast.Call) and isinstance(app.value.func, ast.Attribute) \
+                    and app.value.func.attr == 'append' and isinstance(app.value.func.value, ast.Name) and app.value.func.value.id == acc \
+                    and len(app.value.args) == 1 and not app.value.keywords
+                refs = [n for n in ast.walk(fn) if isinstance(n, ast.Name) and n.id == acc]
+                use_refs = [n for n in ast.walk(use) if isinstance(n, ast.Name) and n.id == acc and isinstance(n.ctx, ast.Load)]
+                elt_mentions = ok and any(isinstance(n, ast.Name) and n.id == acc for x in [app.value.args[0], lp.iter] + ifs for n in ast.walk(x))
+                if ok and len(refs) == 3 and len(use_refs) == 1 and not elt_mentions and not isinstance(use, (ast.For, ast.While, ast.If, ast.With, ast.Try)):
+                    comp = ast.ListComp(elt=app.value.args[0], generators=[ast.comprehension(target=lp.target, iter=lp.iter, ifs=ifs, is_async=0)])
+                    ast.copy_location(comp, lp)
+
+                    class T(ast.NodeTransformer):
+                        def visit_Name(self, n):
+                            if n.id == acc and isinstance(n.ctx, ast.Load):
+                                return comp
+                            return n
+                    stmts[i:i + 3] = [T().visit(use)]
+                    continue
+            i += 1
+
+    def desugar_walrus(self):
+        """`if (x := e) ...:` where the walrus is the first thing the test evaluates  ->  `x = e` ; `if x ...:`"""
+        for fn in [n for n in ast.walk(self.tree) if isinstance(n, FUNCS)]:
+            self._walrus_block(fn.body)
+
+    def _walrus_block(self, stmts):
+        i = 0
+        while i < len(stmts):
+            s = stmts[i]
+            for fld in ('body', 'orelse', 'finalbody'):
+                sub = getattr(s, fld, None)
+                if isinstance(sub, list) and sub and isinstance(sub[0], ast.stmt) and not isinstance(s, FUNCS + (ast.ClassDef,)):
+                    self._walrus_block(sub)
+            for h in getattr(s, 'handlers', []) or []:
+                self._walrus_block(h.body)
+            if isinstance(s, ast.If):
+                # locate the first evaluated sub-expression of the test
+                holder, fld, idx = s, 'test', None
+                e = s.test
+                while True:
+                    if isinstance(e, ast.BoolOp):
+                        holder, fld, idx, e = e, 'values', 0, e.values[0]
+                    elif isinstance(e, ast.UnaryOp) and isinstance(e.op, ast.Not):
+                        holder, fld, idx, e = e, 'operand', None, e.operand
+                    elif isinstance(e, ast.Compare):
+                        holder, fld, idx, e = e, 'left', None, e.left
+                    else:
+                        break
+                if isinstance(e, ast.NamedExpr) and isinstance(e.target, ast.Name):
+                    new = ast.copy_location(ast.Name(id=e.target.id, ctx=ast.Load()), e)
+                    if idx is None:
+                        setattr(holder, fld, new)
+                    else:
+                        getattr(holder, fld)[idx] = new
+                    asg = ast.copy_location(ast.Assign(targets=[ast.Name(id=e.target.id, ctx=ast.Store())], value=e.value, lineno=s.lineno), s)
+                    stmts.insert(i, asg)
+                    i += 1
+            i += 1
+
+    # ---------------------------------------------------------------- N4
+    def propagate_attr_aliases(self):
+        """`x = obj.a.b` (a new, single-assignment local) is replaced by the chain at its later uses when nothing in between can
+        change what the chain denotes: no store to an attribute named like one of the chain, no re-binding of its root, and no call
+        that receives the root object (as receiver or argument)."""
+        if self.base is None:
+            return
+        for q, top in self.units():
+            keep = set(self.keep_aliases.get(q, []))
+            for fn in [n for n in ast.walk(top) if isinstance(n, FUNCS)]:
+                counts = {}
+                for n in own_walk(fn):
+                    if isinstance(n, ast.Name) and isinstance(n.ctx, (ast.Store, ast.Del)):
+                        counts[n.id] = counts.get(n.id, 0) + 1
+                params = {x.arg for x in fn.args.posonlyargs + fn.args.args + fn.args.kwonlyargs}
+                flat = list(self._flat_statements(fn.body))
+                for i, s in enumerate(flat):
+                    if not (isinstance(s, ast.Assign) and len(s.targets) == 1 and isinstance(s.targets[0], ast.Name) and isinstance(s.value, ast.Attribute)):
+                        continue
+                    name = s.targets[0].id
+                    if name in keep or counts.get(name) != 1 or name in params:
+                        continue
+                    chain, attrs = s.value, set()
+                    while isinstance(chain, ast.Attribute):
+                        attrs.add(chain.attr)
+                        chain = chain.value
+                    if not isinstance(chain, ast.Name):
+                        continue
+                    root = chain.id
+                    if counts.get(root, 0) > (0 if root in params else 1):
+                        continue
+                    # only the statements that can run after the definition matter; be conservative: every later statement in
+                    # source order, and (loops) every statement of an enclosing loop
+                    later = flat[i + 1:]
+                    if self._in_loop(fn, s):
+                        later = flat
+                    unsafe = False
+                    for t in later:
+                        if t is s:
+                            continue
+                        for n in self._own_exprs(t):
+                            if isinstance(n, ast.Attribute) and isinstance(n.ctx, (ast.Store, ast.Del)) and n.attr in attrs:
+                                unsafe = True
+                            if isinstance(n, ast.Call):
+                                f_ = n.func
+                                recv = f_.value if isinstance(f_, ast.Attribute) else None
+                                while isinstance(recv, (ast.Attribute, ast.Subscript)):
+                                    recv = recv.value
+                                if isinstance(recv, ast.Name) and recv.id == root and not (isinstance(f_, ast.Attribute) and f_.attr in (
+                                        'match', 'startswith', 'endswith', 'upper', 'lower', 'split', 'strip')):
+                                    unsafe = True
+                                for a in list(n.args) + [k.value for k in n.keywords]:
+                                    if isinstance(a, ast.Name) and a.id == root:
+                                        unsafe = True
+                    nested_use = any(isinstance(m, ast.Name) and m.id == name for n in ast.walk(fn) if isinstance(n, FUNCS + (ast.Lambda,)) and n is not fn
+                                     for m in ast.walk(n))
+                    if unsafe or nested_use:
+                        continue
+                    v = s.value
+
+                    class T(ast.NodeTransformer):
+                        def visit_Name(self, n):
+                            if n.id == name and isinstance(n.ctx, ast.Load):
+                                return ast.copy_location(copy.deepcopy(v), n)
+                            return n
+
+                        def visit_Lambda(self, n):
+                            return n
+                    for t in flat[i + 1:]:
+                        for fld, val in ast.iter_fields(t):
+                            if fld in ('body', 'orelse', 'finalbody', 'handlers'):
+                                continue
+                            if isinstance(val, ast.AST):
+                                setattr(t, fld, T().visit(val))
+                            elif isinstance(val, list):
+                                setattr(t, fld, [T().visit(x) if isinstance(x, ast.AST) else x for x in val])
+
+    def _flat_statements(self, stmts):
+        for s in stmts:
+            if isinstance(s, FUNCS + (ast.ClassDef,)):
+                continue
+            yield s
+            for fld in ('body', 'orelse', 'finalbody'):
+                sub = getattr(s, fld, None)
+                if isinstance(sub, list) and sub and isinstance(sub[0], ast.stmt):
+                    yield from self._flat_statements(sub)
+            for h in getattr(s, 'handlers', []) or []:
+                yield from self._flat_statements(h.body)
+
+    def _own_exprs(self, s):
+        """expression nodes evaluated by statement s itself (not by statements nested in it)"""
+        for fld, val in ast.iter_fields(s):
+            if fld in ('body', 'orelse', 'finalbody', 'handlers'):
+                continue
+            vals = val if isinstance(val, list) else [val]
+            for v in vals:
+                if isinstance(v, ast.AST):
+                    yield from ast.walk(v)
+
+    def _in_loop(self, fn, target):
+        def rec(stmts, inside):
+            for s in stmts:
+                if s is target:
+                    return inside
+                for fld in ('body', 'orelse', 'finalbody'):
+                    sub = getattr(s, fld, None)
+                    if isinstance(sub, list) and sub and isinstance(sub[0], ast.stmt):
+                        r = rec(sub, inside or (isinstance(s, (ast.For, ast.While)) and fld == 'body'))
+                        if r is not None:
+                            return r
+                for h in getattr(s, 'handlers', []) or []:
+                    r = rec(h.body, inside)
+                    if r is not None:
+                        return r
+            return None
+        return bool(rec(fn.body, False))
+
     def _header_impure_before(self, hdr, name):
         # in `if f(x) and guard:` the call f(x) runs before the guard is read: substituting the guard's
         # definition there would move attribute reads behind the call
@@ -980,6 +1184,9 @@ def run(tree, modname):
     except RecursionError:
         pass
     mn.split_ifexp()
+    mn.desugar_walrus()
+    mn.fold_accumulators()
+    mn.propagate_attr_aliases()
     mn.propagate_guards()
     ast.fix_missing_locations(tree)
     return tree, mn.inlined
